@@ -214,6 +214,8 @@ func (b *OnDemandBlockTaskPool) Submit(ctx context.Context, task Task) error {
 	if task == nil {
 		return fmt.Errorf("%w", errTaskIsInvalid)
 	}
+	// 只包装一次：在循环里包装的话，每自旋一次就会多嵌套一层，长时间阻塞后执行任务会栈溢出
+	task = &taskWrapper{t: task}
 	// todo: 用户未设置超时，可以考虑内部给个超时提交
 	for {
 
@@ -224,8 +226,6 @@ func (b *OnDemandBlockTaskPool) Submit(ctx context.Context, task Task) error {
 		if atomic.LoadInt32(&b.state) == stateStopped {
 			return fmt.Errorf("%w", errTaskPoolIsStopped)
 		}
-
-		task = &taskWrapper{t: task}
 
 		ok, err := b.trySubmit(ctx, task, stateCreated)
 		if ok || err != nil {
